@@ -265,6 +265,20 @@ class EEA:
                         la3 = self.I.local_assigns(f).get(node.iter.id) or []
                         if len(la3) == 1 and isinstance(la3[0], ast.List) and la3[0].elts and all(isinstance(e, ast.Constant) and isinstance(e.value, str) for e in la3[0].elts):
                             n += min(e.value.count("/") for e in la3[0].elts)
+                            continue
+                    if isinstance(node, ast.For) and isinstance(node.target, ast.Name) and node.target.id == p.value.id:
+                        # a constant sequence of strings kept elsewhere (module constant, field of a record constant)
+                        it = node.iter
+                        if isinstance(it, ast.Name):
+                            la3 = self.I.local_assigns(f).get(it.id) or []
+                            if len(la3) == 1 and isinstance(la3[0], ast.expr):
+                                it = la3[0]
+                        try:
+                            seq = self.I.folder.plain(self.I.folder.fold(f.module, it))
+                        except Exception:  # noqa: BLE001
+                            seq = None
+                        if isinstance(seq, (tuple, list)) and seq and all(isinstance(x, str) for x in seq):
+                            n += min(x.count("/") for x in seq)
         m = site.text
         idx = 2
         return n + 1 >= idx
@@ -286,6 +300,40 @@ class EEA:
                 if isinstance(cur, ast.ExceptHandler):
                     handler = cur
                     break
+            if handler is None and a.value.id in f.params and not any(has_await_node(st_) and not any(x is n for x in ast.walk(st_)) for st_ in f.node.body if st_.lineno < n.lineno):
+                # the drop lives in a private helper: every call of it must sit in such a handler and pass the
+                # handler's exception; the rest of the premise is then checked at each call
+                idx = [p for p in f.positional_params if p not in ("self", "cls")].index(a.value.id) if a.value.id in f.positional_params else None
+                sites = []
+                for g_ in self.prog.all_functions():
+                    for c in self.I.own_nodes(g_):
+                        if isinstance(c, ast.Call) and ((isinstance(c.func, ast.Attribute) and c.func.attr == f.name) or (isinstance(c.func, ast.Name) and c.func.id == f.name)):
+                            sites.append((g_, c))
+                if idx is None or not sites:
+                    return False
+                for g_, c in sites:
+                    arg = c.args[idx] if idx < len(c.args) else next((k.value for k in c.keywords if k.arg == a.value.id), None)
+                    cur2, h2 = c, None
+                    while cur2 in self.prog.parents and cur2 is not g_.node:
+                        cur2 = self.prog.parents[cur2]
+                        if isinstance(cur2, ast.ExceptHandler):
+                            h2 = cur2
+                            break
+                    if h2 is None or not isinstance(arg, ast.Name) or h2.name != arg.id or h2.type is None:
+                        return False
+                    elts2 = h2.type.elts if isinstance(h2.type, ast.Tuple) else [h2.type]
+                    if not all(norm(x).endswith("LimitOverrunError") for x in elts2):
+                        return False
+                    tr2 = self.prog.parents.get(h2)
+                    recv2 = norm(n.func.value)
+                    if not isinstance(tr2, ast.Try) or not any(isinstance(x, ast.Call) and isinstance(x.func, ast.Attribute) and x.func.attr == "readuntil" and norm(x.func.value) == recv2 for b in tr2.body for x in ast.walk(b)):
+                        return False
+                    for st_ in h2.body:
+                        if any(x is c for x in ast.walk(st_)):
+                            break
+                        if has_await_node(st_):
+                            return False
+                return True
             if handler is None or handler.name != a.value.id or handler.type is None:
                 return False
             elts = handler.type.elts if isinstance(handler.type, ast.Tuple) else [handler.type]
@@ -1468,6 +1516,19 @@ class EEA:
                 out = self.merge(out, self._one(S.TE, self.site(fr, v, "format-spec", f"format spec on a value of type {comp.rsplit('.', 1)[-1]} (object.__format__ refuses a non-empty spec)"), fr))
         return out
 
+    def _constant_table_unmodified(self, e: ast.expr, fr: Frame) -> bool:
+        """No statement of the package stores into / deletes from / calls a mutator on the module-level name."""
+        name = e.id if isinstance(e, ast.Name) else e.attr
+        for m in self.prog.modules.values():
+            for n in ast.walk(m.tree):
+                tg = n.targets if isinstance(n, (ast.Assign, ast.Delete)) else [n.target] if isinstance(n, ast.AugAssign) else []
+                for t in tg:
+                    if isinstance(t, ast.Subscript) and ((isinstance(t.value, ast.Name) and t.value.id == name) or (isinstance(t.value, ast.Attribute) and t.value.attr == name)):
+                        return False
+                if isinstance(n, ast.Call) and isinstance(n.func, ast.Attribute) and n.func.attr in ("pop", "popitem", "clear", "update", "setdefault", "__setitem__", "__delitem__") and ((isinstance(n.func.value, ast.Name) and n.func.value.id == name) or (isinstance(n.func.value, ast.Attribute) and n.func.value.attr == name)):
+                    return False
+        return True
+
     # ---- implicit operations
 
     def subscript_raises(self, e: ast.Subscript, st: St, deleting: bool = False) -> dict:
@@ -1484,6 +1545,25 @@ class EEA:
             out = self.merge(out, self._one(S.IE, self.site(fr, e, "tainted-subscript"), fr))
             return out
         is_map = bt.startswith(("builtins.dict", "dict[", "typing.Mapping", "typing.MutableMapping", "collections.OrderedDict", "typing.Dict")) or (tainted and ("isdict", base_txt) in st.facts)
+        if is_map and isinstance(e.value, (ast.Name, ast.Attribute)):
+            # a constant lookup table indexed by a key that is certainly one of its keys
+            try:
+                tab = self.I.folder.fold(fr.module, e.value)
+            except Exception:  # noqa: BLE001
+                tab = None
+            if isinstance(tab, dict) and not tainted:
+                total = False
+                if isinstance(e.slice, ast.Call) and isinstance(e.slice.func, ast.Name) and e.slice.func.id == "bool" and len(e.slice.args) == 1 and {True, False} <= set(tab):
+                    total = True
+                else:
+                    try:
+                        kv = self.I.folder.plain(self.I.folder.fold(fr.module, e.slice))
+                        total = kv in tab
+                    except Exception:  # noqa: BLE001
+                        total = False
+                if total and self._constant_table_unmodified(e.value, fr):
+                    self.discharged.append({"site": self.site(fr, e, "subscript").loc(), "what": f"{base_txt}[{key_txt}]", "by": "constant lookup table that has this key (nothing in the package modifies it)"})
+                    return {}
         if is_map or bt in ("Any", "") and not bt.startswith(("builtins.list", "builtins.str", "tuple")):
             if ("in", key_txt, base_txt) in st.facts or ("in", self.kn(e.slice, fr.func), self.kn(e.value, fr.func)) in st.facts:
                 self.discharged.append({"site": self.site(fr, e, "subscript").loc(), "what": f"{base_txt}[{key_txt}]", "by": f"guard `{key_txt} in {base_txt}` dominates with no suspension/removal in between"})
@@ -1612,6 +1692,13 @@ class EEA:
             return 0
         if isinstance(it, (ast.GeneratorExp, ast.ListComp)) and len(it.generators) == 1:
             return self.min_count(f, it.elt, ch, depth + 1)
+        # a constant sequence of strings kept in a module constant / a field of a record constant
+        try:
+            seq = self.I.folder.plain(self.I.folder.fold(f.module, it))
+        except Exception:  # noqa: BLE001
+            seq = None
+        if isinstance(seq, (tuple, list, frozenset)) and seq and all(isinstance(x, str) for x in seq):
+            return min(x.count(ch) for x in seq)
         return 0
 
     def _nonempty_enum(self, m: Module, e: ast.expr, depth: int) -> bool:
@@ -1974,11 +2061,34 @@ class EEA:
                                             out = self.merge(out, self._through(self.escapes(Frame(v, fr.V)), fr))
                                         elif isinstance(v, Const) and v.value is None:
                                             continue
+                                        elif self._callable_instance(v, n.value, g) is not None:
+                                            # an instance of a repository class with __call__ (a closure written as a class)
+                                            cm, ccls = self._callable_instance(v, n.value, g)
+                                            found = True
+                                            out = self.merge(out, self._through(self.escapes(Frame(self.I.make_callee(cm, ccls), fr.V)), fr))
                                         else:
                                             self.unknown_calls.setdefault(f"attr-callable {t.fullname} holds {v!r}", f"{g.module.relpath}:{n.lineno}")
         if not found:
             self.unknown_calls.setdefault(f"attr-callable {t.fullname}: no callable store found", f"{fr.module.relpath}:{e.lineno}")
         return out
+
+    def _callable_instance(self, v, value_expr: ast.expr, g: FuncInfo):
+        """(__call__ method, class) when the abstract value / the stored expression is an instance of a repository
+        class that defines __call__."""
+        cls = None
+        what = getattr(v, "what", None)
+        if isinstance(what, str):
+            d = self.prog.lookup_fullname(what)
+            if d is not None and d.kind == "class":
+                cls = d.obj
+        if cls is None and isinstance(value_expr, ast.Call) and isinstance(value_expr.func, (ast.Name, ast.Attribute)):
+            d = self.prog.resolve_expr(g.module, value_expr.func)
+            if d is not None and d.kind == "class":
+                cls = d.obj
+        if cls is None:
+            return None
+        cm = cls.find_method("__call__")
+        return (cm, cls) if cm is not None else None
 
     def external(self, t: Target, e: ast.Call, st: St) -> dict:
         fr = st.fr
